@@ -151,7 +151,9 @@ def abstract_nonlinear(formulas):
             out = t.decl()(*ch) if ch else t
         memo[i] = out
         return out
-    return [rw(f) for f in formulas]
+    _x, _y = z3.Reals("nl!x nl!y")
+    comm = z3.ForAll([_x, _y], _MUL(_x, _y) == _MUL(_y, _x))
+    return [rw(f) for f in formulas] + [comm]
 
 
 def close_reductions(ctx, base, timeout_ms=5000, max_rounds=4):
@@ -269,8 +271,15 @@ class Session:
             subst = [(h, c) for (h, _), c in zip(hole_list, combo)]
             g = z3.substitute(goal, *subst) if subst else goal
             b = [z3.substitute(f, *subst) for f in base] if subst else base
-            st, model, dt, solver = _solve_z3(b + [z3.Not(g)], timeout_ms if not nonlinear_first_budget_ms else min(timeout_ms, nonlinear_first_budget_ms))
             backend = "z3-" + z3.get_version_string()
+            st = None
+            if nonlinear_first_budget_ms and nonlinear_first_budget_ms < 0:
+                # abstraction first (fast and stable for relational obligations whose two sides share their structure)
+                st0, _, dt0, _ = _solve_z3(abstract_nonlinear(b + [z3.Not(g)]), timeout_ms)
+                if st0 == "unsat":
+                    st, model, dt, backend = "unsat", None, dt0, backend + " (nonlinear products abstracted to uninterpreted functions)"
+            if st is None:
+                st, model, dt, solver = _solve_z3(b + [z3.Not(g)], timeout_ms if not nonlinear_first_budget_ms else min(timeout_ms, abs(nonlinear_first_budget_ms)))
             if st.startswith("unknown"):
                 st3, _, dt3, _ = _solve_z3(abstract_nonlinear(b + [z3.Not(g)]), timeout_ms)
                 if st3 == "unsat":
